@@ -15,7 +15,7 @@ from pyvc.types import NONE, Conc, TStr, Val
 P = "C15"
 MOD = "django_components.component_registry"
 LIBMOD = "django_components.library"
-CLS = Obj("CompClass")
+from contracts.common import CLS, class_hash  # noqa: E402
 TAGFN = Obj("TagFn")
 ENTRY = Tup(CLS, Str, tag="RegistryEntry", fields=["cls", "tag"])
 REGD = Dict(Str, ENTRY)
@@ -30,11 +30,6 @@ REG.record("ComponentRegistryEntry", ENTRY)
 S = z3.StringSort()
 
 
-def class_hash(c):
-    return ops.uf("class_hash", CLS.sort(), S)(c)
-
-
-REG.stub(("getattr", "CompClass", "_class_hash"), lambda run, obj, node: Val(TStr, class_hash(obj.t)))
 REG.stub(("new", "ComponentRegistryEntry"), lambda run, args, kwargs, node: Val(ENTRY, ENTRY.mk(
     run.coerce(kwargs["cls"] if "cls" in kwargs else args[0], CLS).t, run.coerce(kwargs["tag"] if "tag" in kwargs else args[1], Str).t)))
 
